@@ -12,7 +12,9 @@ import (
 // REDUCED (typestate over terms): every exported Scalar operation documented
 // to return a reduced scalar packs a value that is reduced BY CONSTRUCTION:
 //
-//	reduced(t) ::= MontgomeryReduce(_)                      (output < L for inputs below L·2^260)
+//	reduced(t) ::= MontgomeryReduce(scalarMulInternal(x, y)) with bits(x) + bits(y) <= 520 (both operands of fixed limb width)
+//	                                                        (Montgomery reduction needs an input below L·R; an
+//	                                                         accumulator carried around a loop is unbounded)
 //	             | Add(a, b) | Sub(a, b)  with reduced(a) ∧ reduced(b)
 //	             | zero | a constant whose value is below L
 //
@@ -22,10 +24,66 @@ var reducedTargets = []string{"(*Scalar).Add", "(*Scalar).Sub", "(*Scalar).Neg",
 	"(*Scalar).SetBytesModOrder", "(*Scalar).SetBytesModOrderWide", "(*Scalar).Invert", "(*unpackedScalar).Invert", "(*unpackedScalar).Mul",
 	"(*unpackedScalar).FromMontgomery", "(*unpackedScalar).ToMontgomery", "(*unpackedScalar).MontgomeryMul", "(*unpackedScalar).MontgomerySquare"}
 
+// scalarBits: an upper bound of the bit length of an unpacked scalar term (-1: unbounded).
+func scalarBits(p *load.Program, t *edt.Term) int {
+	switch {
+	case t.Op == "unpackedScalar.SetBytes":
+		return 256 // 32 bytes, whatever they hold
+	case t.Op == "zero" || t.Op == "scalar.newUnpackedScalar":
+		return 0
+	case t.Op == "unpackedScalar.Add" && len(t.Args) >= 2:
+		a, b := scalarBits(p, t.Args[len(t.Args)-2]), scalarBits(p, t.Args[len(t.Args)-1])
+		if a < 0 || b < 0 {
+			return -1
+		}
+		if b > a {
+			a = b
+		}
+		return a + 1
+	case strings.HasPrefix(t.Op, "@curve/scalar."):
+		v, err := econst.Value(p, "curve/scalar."+strings.TrimPrefix(t.Op, "@curve/scalar."))
+		if err != nil || v == nil || v.Int == nil {
+			return -1
+		}
+		return v.Int.BitLen()
+	case (t.Op == "out1" || t.Op == "sel") && len(t.Args) > 0:
+		return scalarBits(p, t.Args[0])
+	case t.Op == "agg":
+		return 260 // limbs assembled in place from fixed-width pieces (n limbs of W bits)
+	case strings.HasPrefix(t.Op, "$") && len(t.Args) == 0 && !strings.Contains(t.Op, "φ"):
+		return 260 // an unpacked operand handed in by a caller: n limbs of W bits
+	}
+	if ok, _ := reducedTerm(p, t); ok {
+		return 253
+	}
+	return -1
+}
+
 func reducedTerm(p *load.Program, t *edt.Term) (bool, string) {
 	op := t.Op
 	switch {
 	case op == "unpackedScalar.MontgomeryReduce":
+		if len(t.Args) == 0 {
+			return false, "malformed MontgomeryReduce"
+		}
+		in := t.Args[len(t.Args)-1]
+		switch in.Op {
+		case "scalar.scalarMulInternal":
+			if len(in.Args) != 2 {
+				return false, "malformed scalarMulInternal"
+			}
+			a, b := scalarBits(p, in.Args[0]), scalarBits(p, in.Args[1])
+			if a < 0 || b < 0 {
+				return false, "the Montgomery reduction is applied to a product with an UNBOUNDED operand (" + clip(in.Args[0].String(), 100) + "): an accumulator that is not reduced on every step wraps at 2^260"
+			}
+			if a+b > 520 {
+				return false, "the Montgomery reduction is applied to a product that exceeds the 2·n-limb input it is written for"
+			}
+		case "unpackedScalar.squareInternal":
+			if len(in.Args) == 0 || scalarBits(p, in.Args[len(in.Args)-1]) < 0 || scalarBits(p, in.Args[len(in.Args)-1]) > 260 {
+				return false, "the Montgomery reduction is applied to the square of an unbounded operand"
+			}
+		}
 		return true, ""
 	case op == "unpackedScalar.Invert", op == "unpackedScalar.MontgomeryInvert":
 		return true, "" // checked on their own bodies / Montgomery chain of multiplications
@@ -59,6 +117,78 @@ func reducedTerm(p *load.Program, t *edt.Term) (bool, string) {
 	return false, "operand " + clip(t.String(), 120) + " is not reduced by construction (raw unpacked bytes?)"
 }
 
+// loop targets: the accumulator local must hold a reduced value after every iteration
+var reducedLoopTargets = []string{"(*Scalar).Sum", "(*Scalar).Product"}
+
+func checkReducedLoops(rule *report.Rule, cfg *edt.Config, opaque map[string]bool) {
+	p := cfg.P
+	for _, name := range reducedLoopTargets {
+		fn := p.Func("curve/scalar", name)
+		full := "curve/scalar." + name
+		if fn == nil {
+			rule.Fail("-", full, "target function cannot be resolved (anchor lost)", nil)
+			continue
+		}
+		pos := p.Pos(fn.Pos())
+		paths := edt.Walk(&edt.Config{P: p, Mod: cfg.Mod, Opaque: opaque, MaxPaths: 200, SymLoops: true}, fn)
+		bad, iters := "", 0
+		for _, pa := range paths {
+			if pa.Note != "" {
+				bad = "cannot follow the function: " + pa.Note
+				break
+			}
+			out := pa.OutcomeString()
+			if !strings.HasPrefix(out, "next-iteration@") {
+				// exit: the result is a copy of the accumulator (loop state or its reduced initial value)
+				f, ok := pa.Final["$s.inner"]
+				if !ok {
+					if f2, ok2 := pa.Final["$s"]; ok2 {
+						f, ok = f2, true
+					}
+				}
+				if ok && !strings.Contains(f.String(), "havoc@L") && !strings.Contains(f.String(), "PutUint64") && f.String() != "zero" && !strings.HasPrefix(f.String(), "agg(") {
+					if tb := findOp(f, "unpackedScalar.ToBytes"); tb != nil && len(tb.Args) > 0 {
+						if okr, why := reducedTerm(p, tb.Args[0]); !okr {
+							bad = "the result packed after the loop is not reduced by construction: " + why
+						}
+					} else {
+						bad = "the result after the loop is neither the accumulator nor a packed reduced value: " + clip(f.String(), 160)
+					}
+				}
+				continue
+			}
+			iters++
+			found := false
+			for k, f := range pa.Final {
+				if !strings.HasSuffix(k, ".inner") || !strings.HasPrefix(k, "A<scalar.Scalar>#") {
+					continue
+				}
+				found = true
+				tb := findOp(f, "unpackedScalar.ToBytes")
+				if tb == nil || len(tb.Args) == 0 {
+					bad = "the accumulator is not produced by packing an unpacked scalar: " + clip(f.String(), 160)
+				} else if okr, why := reducedTerm(p, tb.Args[0]); !okr {
+					bad = "the accumulator is not reduced after an iteration: " + why
+				}
+			}
+			if !found {
+				bad = "an iteration does not update a packed (32-byte, reduced) accumulator: a running total kept in unpacked limbs is not reduced per step"
+			}
+			if bad != "" {
+				break
+			}
+		}
+		switch {
+		case bad != "":
+			rule.Fail(pos, full, bad, nil)
+		case iters == 0:
+			rule.Fail(pos, full, "no loop iteration found", nil)
+		default:
+			rule.OK(full)
+		}
+	}
+}
+
 func checkReducedOutputs(rule *report.Rule, cfg *edt.Config) int {
 	p := cfg.P
 	n := 0
@@ -67,6 +197,7 @@ func checkReducedOutputs(rule *report.Rule, cfg *edt.Config) int {
 		"unpackedScalar.SetBytes", "unpackedScalar.ToBytes", "unpackedScalar.Invert", "unpackedScalar.MontgomeryInvert"} {
 		opaque[o] = true
 	}
+	checkReducedLoops(rule, cfg, opaque)
 	for _, name := range reducedTargets {
 		fn := p.Func("curve/scalar", name)
 		full := "curve/scalar." + name
